@@ -326,10 +326,16 @@ class EGen(Gen):
             if any(g["err"] and g.get("okform") for g in funcs):
                 fd["ltypes"][52] = "B"
             fd["body"] = self.block(r.randint(2, 5), 0, True)
+            if fd["err"] and M.falls(fd["body"]):
+                gs = [g for g in self.errcallees(True) if self.form_of(g) == self.form_of(f)]
+                if gs and r.random() < 0.6:
+                    g = r.choice(gs)
+                    fd["body"] = M.seq(M.flatten(fd["body"]) + [("retcall", g, [self.atom() for _ in range(funcs[g]["nparams"])], self.cs_id())])
         return self.p
 
     p_ok = 0.3        # share of error-returning functions spelled (value, ok bool)
     p_named = 0.3     # ... with named results
+    p_forward = 0.4   # share of the returns of an error-returning function that forward a callee directly
     p_sentinel = 0.3  # share of programs in which a fresh error may be spelled as a package-level sentinel
 
     def evars(self, form="E"):
@@ -342,6 +348,12 @@ class EGen(Gen):
     def ret(self, a=None):
         fd = self.p["funcs"][self.f]
         a = self.atom() if a is None else a
+        if fd["err"] and self.rng.random() < self.p_forward:
+            # direct forwarding `return g(args)` of a callee with the same result types
+            gs = [g for g in self.errcallees(True) if self.form_of(g) == self.form_of(self.f)]
+            if gs:
+                g = self.rng.choice(gs)
+                return ("retcall", g, [self.atom() for _ in range(self.p["funcs"][g]["nparams"])], self.cs_id())
         if fd["err"]:
             r = self.rng.random()
             if r < 0.45:
@@ -1074,6 +1086,8 @@ def real_triggers(res, name, pos, cpos=None, prog=None):
         ctrl = parse_site(t["ctrl"], cp, prog) if t["ctrl"] else None
         if prod[0] == "?" or cons[0] == "?" or (ctrl is not None and ctrl[0] == "?"):
             odd.append(t); continue
+        if prod[0] == "eresult" and cons[0] == "eresult" and ctrl is None:
+            continue          # `return g()`: the callee's error result feeds this function's; inert in the fragment
         out.add((prod, cons, ctrl))
     return out, odd
 
